@@ -41,6 +41,13 @@ func (a ArchApp) Analysis(deps []core_domain.CodeDataStruct, identifiersMap map[
 		addCallInMethod(clz, identifiersMap, src, *fullGraph)
 	}
 
+	// an edge joins two nodes of the graph: relations to types outside the project, and to the excluded Main, are dropped
+	for key, relation := range fullGraph.RelationList {
+		if _, ok := fullGraph.NodeList[relation.To]; !ok {
+			delete(fullGraph.RelationList, key)
+		}
+	}
+
 	return fullGraph
 }
 
